@@ -72,7 +72,7 @@ def catalogue():
     from dataflows import join
     add('join.wildcard', lambda: [join('res_1', ['k'], 'res_2', ['k'], fields={'*': None, 'cnt': {'aggregate': 'count'}})],
         lambda: [join('res_2', ['k'], 'res_1', ['k'], fields={'m': {}})], ['C02', 'C11'])
-    add('update_resource', lambda: [update_resource(-1, title='T')], lambda: [update_resource(0, title='Z')], ['C10'])
+    add('update_resource', lambda: [update_resource(-1, title='T')], lambda: [update_resource(0, title='Z')], ['C10', 'C16'])
     add('update_schema', lambda: [update_schema(-1, missingValues=['', 'NA'])], lambda: [update_schema(0, missingValues=['x'])], ['C10'])
     add('set_primary_key', lambda: [set_primary_key(['id'])], lambda: [set_primary_key(['k'], resources=0)], ['C10'])
     add('sources', lambda: [sources([{'q': i} for i in range(150)], [{'w': 1}])], lambda: [sources([{'e': 2}])], ['C02', 'C16'])
